@@ -1,11 +1,51 @@
-(* C07 — aggregates.  PLACEHOLDER until model/Agg.v and proofs/AggProofs.v are integrated:
-   pins the generated classification of aggregate functions. *)
-From Coq Require Import List Bool.
-From FS Require Import lib.Str gen.FuncGen.
+(* C07 — aggregate functions return the mathematical aggregate of the matching entries.
+   model/Agg.v mirrors function::get_aggregate_value / get_variance / get_mean / get_buffer_sum
+   (f64 arithmetic through Coq's primitive binary64 floats); spec/AggSpec.v holds the textbook
+   definitions over Z and Q.  Statements only. *)
+From Coq Require Import List ZArith NArith QArith Bool Permutation.
+From FS Require Import lib.Str lib.Res lib.Dec lib.F64 gen.FuncGen model.Agg spec.AggSpec proofs.AggProofs.
 Import ListNotations.
 
+(* the functions the source treats as aggregates *)
 Theorem C07_aggregate_functions :
   Function_is_aggregate_function_list = [FnMin; FnMax; FnAvg; FnSum; FnCount; FnStdDevPop; FnStdDevSamp; FnVarPop; FnVarSamp].
 Proof. reflexivity. Qed.
 
+(* COUNT is the number of matching entries, for every buffer *)
+Theorem C07_count : forall d buf key,
+  get_aggregate_value (Some FnCount) buf key d = Ok (show_Z (Z.of_nat (length buf))).
+Proof. exact count_is_length. Qed.
+
+(* SUM / MIN / MAX of an integer column are exact (no overflow below 2^64 / inside i64) *)
+Theorem C07_sum : forall d buf key xs,
+  col_is buf key xs -> Forall (fun x => 0 <= x)%Z xs -> (sum xs < 2 ^ 64)%Z ->
+  get_aggregate_value (Some FnSum) buf key d = Ok (show_Z (sum xs)).
+Proof. exact sum_exact. Qed.
+Theorem C07_min : forall d buf key xs, col_is buf key xs -> Forall in_i64 xs ->
+  get_aggregate_value (Some FnMin) buf key d = Ok (show_Z (match min_of xs with Some m => m | None => 0%Z end)).
+Proof. exact min_exact. Qed.
+Theorem C07_max : forall d buf key xs, col_is buf key xs -> Forall in_i64 xs ->
+  get_aggregate_value (Some FnMax) buf key d = Ok (show_Z (match max_of xs with Some m => m | None => 0%Z end)).
+Proof. exact max_exact. Qed.
+
+(* AVG is the binary64 quotient of the exact sum and the count (not truncated) *)
+Theorem C07_avg : forall d buf key, buf <> [] -> (sum_val key buf < two64)%N ->
+  get_aggregate_value (Some FnAvg) buf key d = Ok (show_f64 (mean_f (sum_val key buf) (length buf))).
+Proof. exact avg_general. Qed.
+
+(* the variance loop of the source, run in exact arithmetic, IS the textbook variance *)
+Theorem C07_var_pop_textbook : forall buf key xs, col_is buf key xs -> Forall in_usize xs ->
+  (exact_variance buf key (length buf) == var_pop (map inject_Z xs))%Q.
+Proof. exact var_pop_textbook. Qed.
+Theorem C07_var_samp_textbook : forall buf key xs, col_is buf key xs -> Forall in_usize xs -> (2 <= length buf)%nat ->
+  (exact_variance buf key (samp_n (length buf)) == var_samp (map inject_Z xs))%Q.
+Proof. exact var_samp_textbook. Qed.
+
 Print Assumptions C07_aggregate_functions.
+Print Assumptions C07_count.
+Print Assumptions C07_sum.
+Print Assumptions C07_min.
+Print Assumptions C07_max.
+Print Assumptions C07_avg.
+Print Assumptions C07_var_pop_textbook.
+Print Assumptions C07_var_samp_textbook.
